@@ -46,10 +46,10 @@ use std::sync::Arc;
 use std::task::{ready, Context, Poll};
 
 use futures::future::Either;
-use parking_lot::RwLock;
+use parking_lot::{Mutex, RwLock};
 use pin_project::{pin_project, pinned_drop};
 use tokio::runtime::Handle;
-use tokio::sync::{Mutex, Notify};
+use tokio::sync::Notify;
 use tracing::debug;
 
 pub use crate::errors::SingleflightError;
@@ -285,7 +285,10 @@ where
     async fn get_call_or_create(&self, key: &str) -> (Arc<Call<T, E>>, bool) {
         #[cfg(feature = "verif")]
         verif_hooks::point("sf.map.lock");
-        let mut m = self.call_map.lock().await;
+        // A synchronous lock: the sections below never yield, and an async mutex would hand the lock to a
+        // queued caller that may not be polled for a long time (e.g. a buffered stream behind a full channel),
+        // which then blocks every other caller of the group, whatever its key.
+        let mut m = self.call_map.lock();
         #[cfg(feature = "verif")]
         verif_hooks::point("sf.map.locked");
         if let Some(c) = m.get(key).cloned() {
@@ -303,7 +306,7 @@ where
     async fn remove_call(&self, key: &str) -> SingleflightResult<(), E> {
         #[cfg(feature = "verif")]
         verif_hooks::point("sf.map.lock2");
-        let mut m = self.call_map.lock().await;
+        let mut m = self.call_map.lock();
         #[cfg(feature = "verif")]
         verif_hooks::point("sf.map.locked2");
         m.remove(key).ok_or(SingleflightError::CallMissing)?;
